@@ -75,6 +75,8 @@ struct ctx {                 /* one interpreter (one per thread in thread mode) 
   char **cb_log; int *cb_verdict; int *cb_dataok; int cb_nlog, cb_caplog;
   int cookie;
   int tid;                   /* thread id in thread mode */
+  char dbuf[512], cbuf[512]; /* the caller's own buffers for the delimiter and comment sets: REUSED for every reading call, as an
+                                application that keeps them in a struct or on its stack does (same address, other content) */
   int cb_yield;              /* scheduled thread mode: the callback hands the turn over and waits for its next slot */
 };
 
@@ -288,6 +290,11 @@ static void dump_obj(FILE *o, econf_file *kf, int ext) {
 
 static int run_cmd(struct ctx *c, char **t, int nt);
 
+/* delimiter / comment set arguments of the reading calls: copied into the interpreter's two long-lived buffers */
+static const char *setarg(char *buf, size_t n, const char *s) { if (!s) return NULL; snprintf(buf, n, "%s", s); return buf; }
+#define DARG(s) setarg(c->dbuf, sizeof c->dbuf, (s))
+#define CARG(s) setarg(c->cbuf, sizeof c->cbuf, (s))
+
 struct thr_arg { struct ctx c; char *script; int id; };
 static void *thr_main(void *p) {
   struct thr_arg *a = p;
@@ -368,7 +375,7 @@ static int run_cmd(struct ctx *c, char **t, int nt) {
   if (!strcmp(op, "readfile") || !strcmp(op, "readfilecb") || !strcmp(op, "readfilecby")) {
     int h = HND(1), cb = op[8] == 'c'; char *p = tokstr(ARG(2), NULL), *d = tokstr(ARG(3), NULL), *cm = tokstr(ARG(4), NULL);
     c->cb_yield = op[strlen(op) - 1] == 'y';
-    if (cb) e = econf_readFileWithCallback(&c->H[h], p, d, cm, the_callback, c); else e = econf_readFile(&c->H[h], p, d, cm);
+    if (cb) e = econf_readFileWithCallback(&c->H[h], p, DARG(d), CARG(cm), the_callback, c); else e = econf_readFile(&c->H[h], p, DARG(d), CARG(cm));
     c->cb_yield = 0;
     fprintf(o, "{\"op\":\"%s\",\"h\":%d", op, h); jrc(o, e); fprintf(o, ",\"obj\":%s", c->H[h] ? "true" : "false");
     if (cb) jcblog(c);
@@ -376,8 +383,8 @@ static int run_cmd(struct ctx *c, char **t, int nt) {
   if (!strcmp(op, "readdirs") || !strcmp(op, "readdirscb") || !strcmp(op, "readdirscby")) {
     int h = HND(1), cb = op[8] == 'c'; char *a[6]; for (int i = 0; i < 6; i++) a[i] = tokstr(ARG(2 + i), NULL);
     c->cb_yield = op[strlen(op) - 1] == 'y';
-    if (cb) e = econf_readDirsWithCallback(&c->H[h], a[0], a[1], a[2], a[3], a[4], a[5], the_callback, c);
-    else e = econf_readDirs(&c->H[h], a[0], a[1], a[2], a[3], a[4], a[5]);
+    if (cb) e = econf_readDirsWithCallback(&c->H[h], a[0], a[1], a[2], a[3], DARG(a[4]), CARG(a[5]), the_callback, c);
+    else e = econf_readDirs(&c->H[h], a[0], a[1], a[2], a[3], DARG(a[4]), CARG(a[5]));
     c->cb_yield = 0;
     fprintf(o, "{\"op\":\"%s\",\"h\":%d", op, h); jrc(o, e); fprintf(o, ",\"obj\":%s", c->H[h] ? "true" : "false");
     if (cb) jcblog(c);
@@ -386,8 +393,8 @@ static int run_cmd(struct ctx *c, char **t, int nt) {
     /* readconfig h project usr_subdir name suffix delim comment   (H[h] is used as given: NULL or option object) */
     int h = HND(1), cb = op[10] == 'c'; char *a[6]; for (int i = 0; i < 6; i++) a[i] = tokstr(ARG(2 + i), NULL);
     econf_file *before = c->H[h];
-    if (cb) e = econf_readConfigWithCallback(&c->H[h], a[0], a[1], a[2], a[3], a[4], a[5], the_callback, c);
-    else e = econf_readConfig(&c->H[h], a[0], a[1], a[2], a[3], a[4], a[5]);
+    if (cb) e = econf_readConfigWithCallback(&c->H[h], a[0], a[1], a[2], a[3], DARG(a[4]), CARG(a[5]), the_callback, c);
+    else e = econf_readConfig(&c->H[h], a[0], a[1], a[2], a[3], DARG(a[4]), CARG(a[5]));
     fprintf(o, "{\"op\":\"%s\",\"h\":%d", op, h); jrc(o, e);
     fprintf(o, ",\"obj\":%s,\"same\":%s", c->H[h] ? "true" : "false", (c->H[h] == before) ? "true" : "false");
     if (cb) jcblog(c);
@@ -396,8 +403,8 @@ static int run_cmd(struct ctx *c, char **t, int nt) {
     /* readhist h0 dist etc name suffix delim comment : members land in H[h0..h0+n-1] */
     int h = HND(1), cb = op[8] == 'c'; char *a[6]; for (int i = 0; i < 6; i++) a[i] = tokstr(ARG(2 + i), NULL);
     econf_file **kfs = NULL; size_t n = 0;
-    if (cb) e = econf_readDirsHistoryWithCallback(&kfs, &n, a[0], a[1], a[2], a[3], a[4], a[5], the_callback, c);
-    else e = econf_readDirsHistory(&kfs, &n, a[0], a[1], a[2], a[3], a[4], a[5]);
+    if (cb) e = econf_readDirsHistoryWithCallback(&kfs, &n, a[0], a[1], a[2], a[3], DARG(a[4]), CARG(a[5]), the_callback, c);
+    else e = econf_readDirsHistory(&kfs, &n, a[0], a[1], a[2], a[3], DARG(a[4]), CARG(a[5]));
     fprintf(o, "{\"op\":\"%s\",\"h\":%d", op, h); jrc(o, e);
     fprintf(o, ",\"arr\":%s,\"n\":%zu", kfs ? "true" : "false", e == ECONF_SUCCESS ? n : 0);
     if (e == ECONF_SUCCESS && kfs) { for (size_t i = 0; i < n && h + (int)i < NH; i++) c->H[h + i] = kfs[i]; free(kfs); }
@@ -735,6 +742,36 @@ static int run_cmd(struct ctx *c, char **t, int nt) {
     }
     fprintf(o, "],\"count\":%" PRIu64 "}\n", count);
     econf_freeFile(kf); free(alpha); return 0; }
+
+  /* ----- rtmatrix <T> <mode> <dir> <hex>... : the listed values are set under keys k<i> of three sections used ALTERNATELY (and two
+         group-less keys), then every one is read back (directly / after write + read): a setter must reach the key it was called
+         for, wherever that key sits among the entries ----- */
+  if (!strcmp(op, "rtmatrix")) {
+    const char *T = ARG(1); int viafile = !strcmp(ARG(2), "file"); char *dir = tokstr(ARG(3), NULL);
+    uint64_t count = 0, bad = 0, firstbad = 0; econf_file *kf = NULL, *rd = NULL;
+    if (econf_newKeyFile(&kf, '=', '#')) { free(dir); return 0; }
+    int nv = nt - 4; econf_err es = 0;
+    for (int round = 0; round < 2; round++) {            /* round 0: set all; round 1: get all */
+      econf_file *q = kf;
+      if (round == 1 && viafile) { es = econf_writeFile(kf, dir, "rtm.conf"); char *pp; if (asprintf(&pp, "%s/rtm.conf", dir) < 0) pp = NULL;
+        if (!es) es = econf_readFile(&rd, pp, "=", "#"); free(pp); q = rd; }
+      for (int a = 0; a < nv; a++) {
+        uint64_t b = strtoull(t[4 + a], NULL, 16); char g[16], k[16]; const char *gp = g; int ok = 1; econf_err e2 = 0;
+        snprintf(g, sizeof g, "g%d", a % 3); snprintf(k, sizeof k, "k%d", a); if (a % 7 == 3) gp = NULL;
+        if (!strcmp(T, "Int")) { int32_t v = (int32_t)(uint32_t)b, r = 0; if (!round) e2 = econf_setIntValue(kf, gp, k, v); else { e2 = es ? es : econf_getIntValue(q, gp, k, &r); ok = !e2 && r == v; } }
+        else if (!strcmp(T, "UInt")) { uint32_t v = (uint32_t)b, r = 0; if (!round) e2 = econf_setUIntValue(kf, gp, k, v); else { e2 = es ? es : econf_getUIntValue(q, gp, k, &r); ok = !e2 && r == v; } }
+        else if (!strcmp(T, "Int64")) { int64_t v = (int64_t)b, r = 0; if (!round) e2 = econf_setInt64Value(kf, gp, k, v); else { e2 = es ? es : econf_getInt64Value(q, gp, k, &r); ok = !e2 && r == v; } }
+        else if (!strcmp(T, "UInt64")) { uint64_t v = b, r = 0; if (!round) e2 = econf_setUInt64Value(kf, gp, k, v); else { e2 = es ? es : econf_getUInt64Value(q, gp, k, &r); ok = !e2 && r == v; } }
+        else if (!strcmp(T, "Float")) { float v, r = 0; uint32_t bb = (uint32_t)b, rb; memcpy(&v, &bb, 4); if (!round) e2 = econf_setFloatValue(kf, gp, k, v); else { e2 = es ? es : econf_getFloatValue(q, gp, k, &r); memcpy(&rb, &r, 4); ok = !e2 && (rb == bb || (v != v && r != r)); } }
+        else if (!strcmp(T, "Double")) { double v, r = 0; uint64_t rb; memcpy(&v, &b, 8); if (!round) e2 = econf_setDoubleValue(kf, gp, k, v); else { e2 = es ? es : econf_getDoubleValue(q, gp, k, &r); memcpy(&rb, &r, 8); ok = !e2 && (rb == b || (v != v && r != r)); } }
+        else if (!strcmp(T, "Bool")) { bool v = b & 1, r = !v; if (!round) e2 = econf_setBoolValue(kf, gp, k, v ? "yes" : "No"); else { e2 = es ? es : econf_getBoolValue(q, gp, k, &r); ok = !e2 && r == v; } }
+        if (!round && e2) ok = 0;
+        if (round || !ok) { if (round) count++; if (!ok) { if (!bad) firstbad = b; bad++; } }
+      }
+    }
+    econf_freeFile(kf); econf_freeFile(rd);
+    fprintf(o, "{\"op\":\"rtlist\",\"T\":\"%s\",\"mode\":\"%s+matrix\",\"count\":%" PRIu64 ",\"bad\":%" PRIu64 ",\"firstbad\":\"%" PRIx64 "\"}\n", T, ARG(2), count, bad, firstbad);
+    free(dir); return 0; }
 
   /* ----- rtlist <T> <mode> <dir> <hex>... : typed round trip of listed bit patterns (C08) ----- */
   if (!strcmp(op, "rtlist")) {
